@@ -68,6 +68,23 @@ def handle : List String → Option String
   | ["c10_mll", c, k, sims, obs, draws] => some (withGrids c k sims obs fun _ K ss o =>
       match parseList2? parseNat? draws with
       | some ds => showResult (mllMagnitudeTest (α := Float) lgamma1Float K ss o ds) | none => "bad-op")
+  -- observed catalog with `nout` further events below the first magnitude edge
+  | ["c10_no", c, k, sims, obs, nout] => some (withGrids c k sims obs fun _ _ ss o =>
+      match nout.toNat? with
+      | some n =>
+        let r := numberTestOut ss o n
+        showList toString r.distribution ++ "|" ++ toString r.observed ++ "|" ++
+          showOpt showPair r.quantile.1 ++ "," ++ showOpt showPair r.quantile.2
+      | none => "bad-op")
+  | ["c10_mo", c, k, sims, obs, nout] => some (withGrids c k sims obs fun C K ss o =>
+      match nout.toNat? with
+      | some n => showResult (magnitudeTestOut (α := Float) C K ss o n) | none => "bad-op")
+  | ["c10_rmo", c, k, sims, obs, draws, nout] => some (withGrids c k sims obs fun _ K ss o =>
+      match parseList2? parseNat? draws, nout.toNat? with
+      | some ds, some n => showResult (resampledMagnitudeTestOut (α := Float) K ss o ds n) | _, _ => "bad-op")
+  | ["c10_mllo", c, k, sims, obs, draws, nout] => some (withGrids c k sims obs fun _ K ss o =>
+      match parseList2? parseNat? draws, nout.toNat? with
+      | some ds, some n => showResult (mllMagnitudeTestOut (α := Float) lgamma1Float K ss o ds n) | _, _ => "bad-op")
   | ["c10_rates", c, k, sims] => some (withGrids c k sims "-" fun C K ss _ =>
       let m : List (List Float) := meanRates C K ss
       showList showFloat (spatialRates m) ++ "|" ++ showList showFloat (magRates K m) ++ "|" ++
